@@ -31,13 +31,26 @@ def indicator(op: str, a, b):
 
 
 class Dsl:
-    def __init__(self, f: FuncInfo, consts: dict[float, sp.Expr] | None = None):
+    def __init__(self, f: FuncInfo, consts: dict[float, sp.Expr] | None = None, prog=None, env: dict[str, sp.Expr] | None = None, depth: int = 0):
+        """``prog`` (optional) lets names imported from another module of the package be followed; ``env`` binds the
+        parameters (evaluation of a helper at the arguments of a call) instead of making them free symbols."""
         self.f = f
         self.consts = consts or {}
-        self.env: dict[str, sp.Expr] = {p: sp.Symbol(p, real=True) for p in f.positional_params()}
+        self.prog = prog
+        self.depth = depth
+        self.env: dict[str, sp.Expr] = dict(env) if env is not None else {p: sp.Symbol(p, real=True) for p in f.params()}
         self.ret: sp.Expr | None = None
         self.literal_floats: list[float] = []
+        #: (value, file, line) of every float literal read during the evaluation, helpers and module constants included
+        self.literals: list[tuple[float, str, int]] = []
+        #: placeholder symbol -> the call it stands for: a call that is not understood is harmless while its value stays out of
+        #: the returned formula (value probing for the argument checks); once it enters the formula the evaluation fails
+        self.unknown: dict[sp.Symbol, str] = {}
         self.run(f.explicit_body)
+        if depth == 0 and self.ret is not None:
+            bad = [why for sym_, why in self.unknown.items() if sym_ in self.ret.free_symbols]
+            if bad:
+                raise AnalysisError(f'{bad[0]}: the value enters the formula returned by {f.name}')
 
     def run(self, stmts):
         for st in stmts:
@@ -65,6 +78,7 @@ class Dsl:
                 v = float(e.value)
                 if isinstance(e.value, float):
                     self.literal_floats.append(v)
+                    self.literals.append((v, self.f.file, getattr(e, 'lineno', 0)))
                 for c, s in self.consts.items():
                     if abs(v - c) <= 5e-10 * max(1.0, abs(c)):
                         return s
@@ -73,9 +87,16 @@ class Dsl:
         if isinstance(e, ast.Name):
             if e.id in self.env:
                 return self.env[e.id]
+            v = self._module_value(e.id)
+            if v is not None:
+                return v
             raise AnalysisError(f'{self.f.file}:{e.lineno}: unknown name {e.id} in {self.f.name}')
+        if isinstance(e, ast.Attribute) and dotted(e) in ('math.pi', 'np.pi', 'numpy.pi'):
+            return sp.pi
         if isinstance(e, ast.UnaryOp) and isinstance(e.op, ast.USub):
             return -self.ev(e.operand)
+        if isinstance(e, ast.UnaryOp) and isinstance(e.op, ast.UAdd):
+            return self.ev(e.operand)
         if isinstance(e, ast.BinOp):
             l, r = self.ev(e.left), self.ev(e.right)
             op = type(e.op).__name__
@@ -90,6 +111,8 @@ class Dsl:
                 return sp.exp(self.ev(e.args[0]))
             if name in ('log',):
                 return sp.log(self.ev(e.args[0]))
+            if name == 'sqrt' and len(e.args) == 1 and not e.keywords:
+                return sp.sqrt(self.ev(e.args[0]))
             if name == 'bioMultSum' and isinstance(e.args[0], ast.List):
                 return sp.Add(*[self.ev(x) for x in e.args[0].elts])
             if name == 'Elem' and isinstance(e.args[0], ast.Dict):
@@ -99,6 +122,126 @@ class Dsl:
                 return ELEM(self.ev(e.args[1]), *items)
             if name == 'MonteCarlo':
                 return sp.Function('MC')(self.ev(e.args[0]))
-            r = self.f.module
-            return sp.Function(name)(*[self.ev(a) for a in e.args])
+            why = f'{self.f.file}:{getattr(e, "lineno", 0)}: unknown call {unparse(e.func)}(...) in {self.f.name}'
+            try:
+                r = self._helper(e)
+                if r is not None:
+                    return r
+            except AnalysisError as err:
+                why = f'{why} ({str(err)[:120]})'
+            # a call that is not understood is not a formula: no sympy function is invented for it (the rule leaves the verdict open)
+            ph = sp.Symbol(f'?{name}#{len(self.unknown)}', real=True)
+            self.unknown[ph] = why
+            return ph
         raise AnalysisError(f'{self.f.file}:{getattr(e, "lineno", 0)}: expression of {self.f.name} not understood: {unparse(e)[:60]}')
+
+    # ---- names and calls resolved outside the function ----------------------
+
+    def _resolve(self, name: str):
+        m = self.f.module
+        if self.prog is not None:
+            try:
+                return self.prog.resolve_name(m, name)
+            except Exception:  # noqa
+                return None
+        if name in m.functions:
+            return ('func', m.functions[name])
+        if name in m.assigns and name not in m.classes and name not in m.imports:
+            return ('value', m, m.assigns[name])
+        return None
+
+    def _probe(self, f) -> 'Dsl':
+        """an evaluator of single expressions in the scope of f (no parameters bound, nothing run)"""
+        probe = Dsl.__new__(Dsl)
+        probe.f, probe.consts, probe.prog, probe.depth, probe.env, probe.ret = f, self.consts, self.prog, self.depth + 1, {}, None
+        probe.literal_floats, probe.literals, probe.unknown = [], [], {}
+        return probe
+
+    def _sub(self, f: FuncInfo, env: dict[str, sp.Expr]) -> 'Dsl':
+        d = Dsl(f, self.consts, self.prog, env, self.depth + 1)
+        self.literal_floats += d.literal_floats
+        self.literals += d.literals
+        for k, v in d.unknown.items():
+            self.unknown[sp.Symbol(f'{k.name}/{len(self.unknown)}', real=True)] = v  # distinct from the placeholders of the caller
+        if d.ret is not None and d.unknown:
+            ren = {k: k2 for k, k2 in zip(d.unknown, list(self.unknown)[-len(d.unknown):])}
+            d.ret = d.ret.subs(ren, simultaneous=True)
+        return d
+
+    def _module_value(self, name: str):
+        """value of a module-level constant (a name assigned once at the top level of its module to a formula of literals)"""
+        if self.depth > 4:
+            return None
+        r = self._resolve(name)
+        if r is not None and r[0] == 'external' and r[1] in ('math.pi', 'numpy.pi'):
+            return sp.pi
+        if r is None or r[0] != 'value':
+            return None
+        mod, expr = r[1], r[2]
+        n_defs = sum(1 for st in ast.walk(mod.tree) if isinstance(st, (ast.Assign, ast.AnnAssign, ast.AugAssign))
+                     for t in (st.targets if isinstance(st, ast.Assign) else [st.target]) for x in ast.walk(t) if isinstance(x, ast.Name) and x.id == name)
+        n_defs += sum(1 for st in ast.walk(mod.tree) if isinstance(st, ast.Global) and name in st.names)
+        if n_defs != 1:
+            return None
+        probe = self._probe(_At(self.f, mod))
+        try:
+            v = probe.ev(expr)
+        except AnalysisError:
+            return None
+        if probe.unknown:
+            return None
+        self.literal_floats += probe.literal_floats
+        self.literals += probe.literals
+        return v
+
+    def _helper(self, call: ast.Call):
+        """value of a call of a plain function of the package whose body is straight-line (assignments and one return,
+        validation preambles apart): the body evaluated with the parameters bound to the arguments - positional, keyword
+        and keyword-only alike, defaults for the rest.  None when the callee is not such a function."""
+        if self.depth > 4 or not isinstance(call.func, ast.Name):
+            return None
+        r = self._resolve(call.func.id)
+        if r is None or r[0] != 'func':
+            return None
+        g: FuncInfo = r[1]
+        a = g.node.args
+        if g.node.decorator_list or a.vararg or a.kwarg or isinstance(g.node, ast.AsyncFunctionDef):
+            return None
+        if any(isinstance(x, ast.Starred) for x in call.args) or any(k.arg is None for k in call.keywords):
+            return None
+        if any(isinstance(x, (ast.Yield, ast.YieldFrom, ast.Global, ast.Nonlocal)) for x in ast.walk(g.node)):
+            return None
+        pos = [x.arg for x in a.posonlyargs + a.args]
+        if len(call.args) > len(pos):
+            return None
+        bound: dict[str, ast.expr] = dict(zip(pos, call.args))
+        allowed_kw = {x.arg for x in a.args + a.kwonlyargs}
+        for k in call.keywords:
+            if k.arg not in allowed_kw or k.arg in bound:
+                return None
+            bound[k.arg] = k.value
+        env = {p: self.ev(v) for p, v in bound.items()}
+        defaults = dict(zip(pos[len(pos) - len(a.defaults):], a.defaults))
+        defaults.update({x.arg: dflt for x, dflt in zip(a.kwonlyargs, a.kw_defaults) if dflt is not None})
+        for p in pos + [x.arg for x in a.kwonlyargs]:
+            if p in env:
+                continue
+            if p not in defaults:
+                return None
+            probe = self._probe(g)
+            env[p] = probe.ev(defaults[p])
+            if probe.unknown:
+                raise AnalysisError(f'{g.file}:{g.line}: default of {p} not understood')
+            self.literal_floats += probe.literal_floats
+            self.literals += probe.literals
+        d = self._sub(g, env)
+        if d.ret is None:
+            raise AnalysisError(f'{g.file}:{g.line}: {g.name} returns nothing that is understood')
+        return d.ret
+
+
+class _At:
+    """a function seen from another module (names of a module-level constant are resolved where the constant is written)"""
+
+    def __init__(self, f: FuncInfo, module):
+        self.file, self.name, self.module, self.line = module.path, f.name, module, f.line
